@@ -1,10 +1,15 @@
 //! Verification harness: runs the plonky2 implementation on generated cases and writes
 //! line-oriented case files for the Coq model (extracted OCaml / in-Coq vm_compute) to replay.
 mod c01;
+mod c02;
+mod c08;
+mod c09;
+mod c10;
 mod c03;
 mod c04;
 mod c05;
 mod c06;
+mod c07;
 mod c11;
 mod c20;
 mod c12;
@@ -49,6 +54,11 @@ fn main() {
     let n = match prop {
         "c14" => c14::run(seed, tier, &mut w),
         "c01" => c01::run(seed, tier, &mut w),
+        "c02" => c02::run(seed, tier, &mut w),
+        "c08" => c08::run(seed, tier, &mut w),
+        "c09" => c09::run(seed, tier, &mut w),
+        "c18stark" => c09::run_c18stark(seed, tier, &mut w),
+        "c10" => c10::run(seed, tier, &mut w),
         "c18" => c18::run(seed, tier, &mut w),
         "c03" => c03::run(seed, tier, &mut w),
         "c16" => c16::run(seed, tier, &mut w),
@@ -60,6 +70,7 @@ fn main() {
         "c17" => c17::run(seed, tier, &mut w),
         "c19" => c19::run(seed, tier, &mut w),
         "c06" => c06::run(seed, tier, &mut w),
+        "c07" => c07::run(seed, tier, &mut w),
         "c11" => c11::run(seed, tier, &mut w),
         "c20" => c20::run(seed, tier, &mut w),
         _ => {
